@@ -166,9 +166,9 @@ func cmdCheck(args []string) int {
 	trusted := map[string]bool{}
 	var assumptions []string
 	byBackend := map[string]*struct {
-		N        int
-		Total    float64
-		Max      float64
+		N     int
+		Total float64
+		Max   float64
 	}{}
 	// verify functions in parallel (VC generation is single threaded per function; solving is the cost)
 	type job struct {
